@@ -1,4 +1,7 @@
 pub mod c02;
+pub mod c03;
+pub mod c12;
+pub mod c13;
 pub mod c15;
 
 use crate::report::{PropSpec, Report, RunCfg};
@@ -6,6 +9,9 @@ use crate::report::{PropSpec, Report, RunCfg};
 pub fn lookup(id: &str) -> Option<(&'static PropSpec, fn(&RunCfg) -> Report)> {
     Some(match id {
         "C02" => (&c02::SPEC, c02::run as fn(&RunCfg) -> Report),
+        "C03" => (&c03::SPEC, c03::run as fn(&RunCfg) -> Report),
+        "C12" => (&c12::SPEC, c12::run as fn(&RunCfg) -> Report),
+        "C13" => (&c13::SPEC, c13::run as fn(&RunCfg) -> Report),
         "C15" => (&c15::SPEC, c15::run as fn(&RunCfg) -> Report),
         _ => return None,
     })
